@@ -112,6 +112,9 @@ type Type struct {
 	Elem *Type   // list/set element, map value
 	St   *Struct // struct
 	Ptr  bool    // Go representation is *T (structs anywhere; scalars/strings as optional fields)
+	// Named: a plain i64 whose Go type is nevertheless the named int64 type that is an enum when
+	// annotated with its own name - the annotation ("i64") alone decides the wire type.
+	Named bool
 }
 
 type Field struct {
